@@ -398,6 +398,8 @@ PLANS = {
                 gen=[G("alloc", 240, 8000, "TraceAlloc", "TraceAlloc.cfg"),
                      G("alloc", 60, 1000, "TraceSorterB", "TraceSorterB.cfg", drift=True),
                      G("alloc_readers", 40, 1200, "TraceAlloc", "TraceAlloc.cfg"),
+                     # a merge function that failed once, a caller that keeps pulling: values handed out stay live memory
+                     G("merge_resume", 40, 600, "TraceAlloc", "TraceAlloc.cfg"),
                      # real-scale growth of the sorter buffer: first entries on framing boundaries / powers of two
                      G("sorter_framing", 42, 84, "TraceSorter", "TraceSorter_C07.cfg", heavy=False),
                      # borrowed keys / values handed out by the read paths: freed memory is poisoned by the
